@@ -402,7 +402,16 @@ where
     fn uncertainty_maximized(&self, a: &T) -> Self::Output {
         let p = self.projection(a);
         let u_max = self.max_uncertainty(a);
-        let b_max = T::from_fn(|i| p[i] - a[i] * u_max);
+        // the mass of the state that attains the minimum is exactly 0; `p[i]` and `a[i] * u_max` round differently, and the residue
+        // of either sign is clamped at zero as in deduction and inversion
+        let b_max = T::from_fn(|i| {
+            let b = p[i] - a[i] * u_max;
+            if b < V::zero() {
+                V::zero()
+            } else {
+                b
+            }
+        });
         // sum(b_max) + u_max = 1 - u_max * (sum(a) - 1): renormalise like every other operator that builds b = p - a*u
         Simplex::normalized(b_max, u_max)
     }
